@@ -227,6 +227,8 @@ func c19Run[T any](typ string, mk func(int) T, ops []c19Op, classes *c19Classes)
 				}
 				sort.Strings(strs)
 				emit(name, strs)
+				// later operations must not depend on the drawn order either
+				list.SortValues()
 			case 14:
 				class := agent.Collator[T]()
 				classes.note("Collator["+typ+"]", class)
